@@ -387,6 +387,11 @@ func main() {
 
 	// stack
 	scs := stackScenarios(tier, r)
+	for i, sc := range scs { // failover is the same promise whatever size the engines read in
+		if i%4 == 1 {
+			sc.StreamBufferSize = vlib.Pick(r, []int{1024, 16384, 65536})
+		}
+	}
 	out := make([]*scen.Obs, len(scs))
 	scen.ParallelMap(len(scs), 16, func(i int) { out[i] = scen.Run(scs[i]) })
 	for i, sc := range scs {
